@@ -1,4 +1,5 @@
 import DatamonVerif.Props.C01
+import DatamonVerif.Props.C01Seq
 import DatamonVerif.Props.C02
 /-! C01, end to end — `Put` then read: the store that `Put` leaves serves the object.
 
@@ -147,14 +148,15 @@ def objectBlobs (H : Hash) (L : Nat) (c : Bytes) : List (Bytes × Bytes) :=
   (leafKeysOf H L (chunks L c)).zip (chunks L c) ++
     [(specKey H L c, (leafKeysOf H L (chunks L c)).flatten ++ specKey H L c)]
 
-/-- **Put then read (sequential)** -/
-theorem C01_put_then_readAll (H : Hash) (crc : Bool) (L : Nat) (hL : 0 < L) (s : Store) (writes : List Bytes)
+/-- after `put`, the object's keys are read back from its root blob and every leaf is served
+    (and verifies) from the resulting store -/
+theorem put_serves (H : Hash) (crc : Bool) (L : Nat) (hL : 0 < L) (s : Store) (writes : List Bytes)
     (hlen : ∀ p b, (H p b).length = keySize)
     (hco : Coherent (objectBlobs H L writes.flatten))
     (hs : ∀ p ∈ objectBlobs H L writes.flatten, Compat s p.1 p.2) :
     ∃ keys, objectKeys H L (put H crc L s writes).1 (put H crc L s writes).2.key = .ok keys ∧
-      readAll H true L (put H crc L s writes).1 keys = .ok writes.flatten ∧
-      ∀ off n, readAt H true L (put H crc L s writes).1 keys off n = .ok ((writes.flatten.drop off).take n) := by
+      keys.length = (chunks L writes.flatten).length ∧
+      Serves (fetchLeaf H true L (put H crc L s writes).1 keys) (chunks L writes.flatten) := by
   -- unfold `put` to the chunk level
   have i1 := writes_inv L hL writes W.init [] (init_inv L hL)
   have l1 : (writes.foldl (W.write L) W.init).leaves = chunks L writes.flatten := leaves_eq_chunks L hL _ _ i1
@@ -231,10 +233,40 @@ theorem C01_put_then_readAll (H : Hash) (crc : Bool) (L : Nat) (hL : 0 < L) (s :
     rw [hki']
     simp only [hg, hlenks]
     simp
+  exact ⟨ks, hkeys, hlenks, hfetch⟩
+
+/-- **Put then read (sequential to completion, and random access)** -/
+theorem C01_put_then_readAll (H : Hash) (crc : Bool) (L : Nat) (hL : 0 < L) (s : Store) (writes : List Bytes)
+    (hlen : ∀ p b, (H p b).length = keySize)
+    (hco : Coherent (objectBlobs H L writes.flatten))
+    (hs : ∀ p ∈ objectBlobs H L writes.flatten, Compat s p.1 p.2) :
+    ∃ keys, objectKeys H L (put H crc L s writes).1 (put H crc L s writes).2.key = .ok keys ∧
+      readAll H true L (put H crc L s writes).1 keys = .ok writes.flatten ∧
+      ∀ off n, readAt H true L (put H crc L s writes).1 keys off n = .ok ((writes.flatten.drop off).take n) := by
+  obtain ⟨ks, hkeys, hlenks, hfetch⟩ := put_serves H crc L hL s writes hlen hco hs
   refine ⟨ks, hkeys, ?_, ?_⟩
-  · exact C01_readAll_roundtrip H true L hL s2 ks c hlenks hfetch
+  · exact C01_readAll_roundtrip H true L hL _ ks _ hlenks hfetch
   · intro off n
-    exact C01_readAt_roundtrip H true L hL s2 ks c hlenks hfetch off n
+    exact C01_readAt_roundtrip H true L hL _ ks _ hlenks hfetch off n
+
+/-- **Put then a read loop with any buffer sizes** (the `Read` state machine of
+    `Model/CafsSeq.lean`, any blob-reader behaviour `m`): whatever the source's chunking and the
+    caller's buffers, the loop delivers `content.take (sum bufs)` without error, the whole content
+    once it reports `io.EOF`, and reports `io.EOF` as soon as the buffers exceed the content. -/
+theorem C01_put_then_readSeq (m : RMode) (H : Hash) (crc : Bool) (L : Nat) (hL : 0 < L) (s : Store) (writes : List Bytes)
+    (hlen : ∀ p b, (H p b).length = keySize)
+    (hco : Coherent (objectBlobs H L writes.flatten))
+    (hs : ∀ p ∈ objectBlobs H L writes.flatten, Compat s p.1 p.2) (bufs : List Nat) :
+    ∃ keys, objectKeys H L (put H crc L s writes).1 (put H crc L s writes).2.key = .ok keys ∧
+      (readSeq m H true L (put H crc L s writes).1 keys bufs SR.init).1 = writes.flatten.take bufs.sum ∧
+      ((readSeq m H true L (put H crc L s writes).1 keys bufs SR.init).2 = .ok ∨
+        (readSeq m H true L (put H crc L s writes).1 keys bufs SR.init).2 = .eof) ∧
+      ((readSeq m H true L (put H crc L s writes).1 keys bufs SR.init).2 = .eof →
+        (readSeq m H true L (put H crc L s writes).1 keys bufs SR.init).1 = writes.flatten) ∧
+      (writes.flatten.length < bufs.sum →
+        (readSeq m H true L (put H crc L s writes).1 keys bufs SR.init).2 = .eof) := by
+  obtain ⟨ks, hkeys, hlenks, hfetch⟩ := put_serves H crc L hL s writes hlen hco hs
+  exact ⟨ks, hkeys, C01_readSeq_roundtrip m H true L hL _ ks _ hlenks hfetch bufs⟩
 
 end Cafs
 
